@@ -246,7 +246,8 @@ def meek_rules(rep, prog):
     unread = []
     for st in stores:
         # the guarding condition: last condition taken True on the path that consists of rule calls
-        conds = [c for c, pol in st.path if pol is True and any(isinstance(x, tuple) and x[0] == "call" and x[1] in RULES for x in walk(c))]
+        # (split into literals: `backward = not forward and (rule_1(j, i, P) or ...)` taken True is `forward` False and the second disjunction True)
+        conds = [c for c, pol in literals(st.path) if pol is True and any(isinstance(x, tuple) and x[0] == "call" and x[1] in RULES for x in walk(c))]
         if not conds or st.idx[0] != "tuple" or not is_const(st.value, 0):
             ok = False
             in_loop_conds = [c for c, pol in st.path]
@@ -307,8 +308,24 @@ def meek_rules(rep, prog):
             nx = il["next"][flag]
             okm = is_const(il["init"].get(flag), False) and only_raised(nx) and nx != muf and wl["next"].get(flag) == ("after", li_, flag)
             why = "flag is updated as %s (start of pass: %s)" % (fmt(nx)[:80], fmt(il["init"].get(flag, ("const", None))))
+        def readable(t):
+            # built from the flag itself, boolean constants, calls of the Meek rules and and / or / not / if-else only: its meaning is fully read
+            if t == muf or (is_const(t) and isinstance(t[1], bool)):
+                return True
+            if t[0] == "phi":
+                return readable(t[1]) and readable(t[2]) and readable(t[3])
+            if t[0] == "bool":
+                return all(readable(x) for x in t[2])
+            if t[0] == "unop" and t[1] in ("not", "truth"):
+                return readable(t[2])
+            return t[0] == "call" and t[1] in RULES
         if not okm and why == "flag / pass loop not identified":
             rep.unk("ORIENT.flag", fwhere(f), "how the loop knows that a pass oriented something is not written as a boolean flag: not read")
+        elif not okm and flag is not None and len(inner) == 1 and is_const(il["init"].get(flag), False) and readable(nx) and not only_raised(nx) and nx != muf:
+            # read completely, and what it says is wrong: the flag is recomputed per edge from the rules alone, so an edge that is not orientable
+            # lowers it again and the loop stops although an earlier edge of the same pass was oriented
+            rep.bad("ORIENT.flag", fwhere(f), "the repeat-until-stable flag is recomputed for every edge (%s) and forgets that an earlier edge of the pass was oriented: the "
+                    "loop can stop before nothing changes" % fmt(nx)[:100])
         else:
             rep.check("ORIENT.flag", okm, fwhere(f), "the pass flag starts at False and is only ever raised inside a pass", "the repeat-until-stable flag can be lowered again within a pass: " + why)
     inner = [(k, v) for k, v in S.loopinfo.items() if v["func"] == q and v["test"] is None]
